@@ -54,6 +54,8 @@ class Expect:
         self.branches = None      # {code-prefix: callable applied on observe}
 
     def accepts(self, code):
+        if any(code.startswith(p) for p in getattr(self, "forbid", ())):
+            return False
         if self.codes is not None:
             return code in self.codes
         return code[0] in self.classes
@@ -109,6 +111,13 @@ class Model:
         finally:
             if reset_rest:
                 self.rest = 0
+
+    def _refused(self):
+        """a path / precondition failure: a 5xx that is not 50x (aioftp's client takes 50x for 'command not supported' and
+        falls back to another command); the exact code is fixed by the statement only for MLST (Client.exists keys on 550)"""
+        e = Expect(classes="5", note="refused (5xx, not 50x)")
+        e.forbid = ("50",)
+        return e
 
     def _need_login(self):
         return Expect(["503"], note="not logged in")
@@ -179,13 +188,13 @@ class Model:
         if v in ("CWD", "CDUP"):
             p = norm(self.cwd, arg) if v == "CWD" else parent(self.cwd)
             if not self.is_dir(p):
-                return Expect(["550"])
+                return self._refused()
             self.cwd = p
             return Expect(["250"])
         if v == "MKD":
             p = norm(self.cwd, arg)
             if self.exists(p):
-                return Expect(["550"])
+                return self._refused()
             if self.through_file(p):
                 return Expect(classes="45", note="mkdir through a file")
             q = p
@@ -199,7 +208,7 @@ class Model:
         if v == "RMD":
             p = norm(self.cwd, arg)
             if not self.is_dir(p):
-                return Expect(["550"])
+                return self._refused()
             if self.children(p):
                 return Expect(classes="45", note="rmdir non-empty")
             del self.tree[p]
@@ -207,7 +216,7 @@ class Model:
         if v == "DELE":
             p = norm(self.cwd, arg)
             if not self.is_file(p):
-                return Expect(["550"])
+                return self._refused()
             del self.tree[p]
             return Expect(["250"])
         if v == "MLST":
@@ -221,7 +230,7 @@ class Model:
         if v == "RNFR":
             p = norm(self.cwd, arg)
             if not self.exists(p):
-                return Expect(["550"])
+                return self._refused()
             self.rename_from = p
             return Expect(["350"])
         if v == "RNTO":
@@ -234,7 +243,7 @@ class Model:
             if self.exists(p):
                 # refused before the rename is attempted: whether the pending RNFR survives is unspecified
                 self.rename_from = ("maybe", src)
-                e = Expect(["550", "503"] if maybe else ["550"])
+                e = Expect(classes="5", note="RNTO onto an existing path") if maybe else self._refused()
                 model = self
 
                 def gone():
@@ -289,7 +298,7 @@ class Model:
             if not self.is_file(p):
                 self.rest_maybe = rest or alt
                 self.rest = 0
-                return Expect(["550"])
+                return self._refused()
             self.rest = 0
             if data == "never":
                 return Expect(["425"], marks=1)
@@ -302,7 +311,7 @@ class Model:
         if v in ("LIST", "MLSD"):
             self.rest = 0
             if not self.exists(p):
-                return Expect(["550"])
+                return self._refused()
             if data == "never":
                 return Expect(["425"], marks=1)
             e = Expect(classes="2", marks=1)
@@ -312,7 +321,7 @@ class Model:
         if v in ("STOR", "APPE"):
             if not self.is_dir(parent(p)):
                 self.rest = 0
-                return Expect(["550"])
+                return self._refused()
             self.rest = 0
             if data == "never":
                 return Expect(["425"], marks=1)
